@@ -327,3 +327,76 @@ Proof.
   - rewrite (dec_mul_rounded_pf pf1 pf2 m x y n Hx Hy ltac:(lia)). reflexivity.
   - rewrite (dec_quantize_pf pf1 pf2 m x y Hx Hy). reflexivity.
 Qed.
+
+(* ---------------- the integer-operand bodies ---------------- *)
+From FP Require Import IntForms.
+
+Lemma cdr_pf pf1 pf2 m cx px cy py n :
+  - MAXC <= cx <= MAXC -> - MAXC <= cy <= MAXC -> cy <> 0 ->
+  0 <= px <= 18 -> 0 <= py <= 18 -> 0 <= n <= 18 ->
+  checked_div_rounded pf1 m cx px cy py n = checked_div_rounded pf2 m cx px cy py n.
+Proof. intros. rewrite (cdr_closed pf1), (cdr_closed pf2) by assumption. reflexivity. Qed.
+
+Lemma div_tail_pf' pf1 pf2 m cx px cy py :
+  - MAXC <= cx <= MAXC -> - MAXC <= cy <= MAXC -> cy <> 0 -> 0 <= px <= 18 -> 0 <= py <= 18 ->
+  div_tail pf1 m cx px cy py = div_tail pf2 m cx px cy py.
+Proof.
+  intros. unfold div_tail. change MAX_N_FRAC_DIGITS with 18.
+  rewrite (cdr_pf pf1 pf2) by (assumption || lia). reflexivity.
+Qed.
+
+Lemma cdr_range pf m cx px cy py n c :
+  - MAXC <= cx <= MAXC -> - MAXC <= cy <= MAXC -> cy <> 0 ->
+  0 <= px <= 18 -> 0 <= py <= 18 -> 0 <= n <= 18 ->
+  checked_div_rounded pf m cx px cy py n = Val (Some c) -> in_range I128 c = true.
+Proof.
+  intros Hx Hy Hnz Hpx Hpy Hn E.
+  destruct (checked_div_rounded_ok sdmf_contract_holds pf m cx px cy py n Hx Hy Hnz Hpx Hpy Hn) as (o & Ho & Hr).
+  rewrite E in Ho. injection Ho as <-. destruct Hr as [-> [H1 H2]].
+  apply in_I128_iff. unfold MINC in H1. rewrite MAXC_val in H2. rewrite pow2_127 in *. lia.
+Qed.
+
+Theorem int_forms_profile_free pf1 pf2 m op t d i j n :
+  wf d = true -> - MAXC <= i <= MAXC -> - MAXC <= j <= MAXC -> 0 <= n <= 18 ->
+  run_di pf1 m op t d i n = run_di pf2 m op t d i n /\
+  run_id pf1 m op t i d n = run_id pf2 m op t i d n /\
+  run_ii pf1 m op i j n = run_ii pf2 m op i j n.
+Proof.
+  intros Hd Hi Hj Hn. pose proof Hd as Hd'. apply wf_iff in Hd'. destruct Hd' as [Hcd Hpd].
+  assert (Hdr : in_range I128 (coeff d) = true) by (apply wf_in_range; exact Hd).
+  refine (conj _ (conj _ _)).
+  - (* Decimal op integer *)
+    destruct op; cbn [run_di]; try reflexivity.
+    + unfold di_div. destruct (Z.eqb_spec i 0); [reflexivity|]. destruct (eq_zero d); [reflexivity|].
+      destruct (i =? 1); [reflexivity|]. rewrite (div_tail_pf' pf1 pf2) by (assumption || lia). reflexivity.
+    + unfold di_checked_div. destruct (Z.eqb_spec i 0); [reflexivity|]. destruct (eq_zero d); [reflexivity|].
+      destruct (i =? 1); [reflexivity|]. rewrite (div_tail_pf' pf1 pf2) by (assumption || lia). reflexivity.
+    + unfold di_div_rounded. destruct (Z.eqb_spec i 0); [reflexivity|]. destruct (eq_zero d); [reflexivity|].
+      rewrite (cdr_pf pf1 pf2) by (assumption || lia). reflexivity.
+    + unfold di_quantize, di_div_rounded. destruct (Z.eqb_spec i 0); [reflexivity|]. destruct (eq_zero d); [reflexivity|].
+      rewrite (cdr_pf pf1 pf2) by (assumption || lia). reflexivity.
+  - (* integer op Decimal *)
+    destruct op; cbn [run_id]; try reflexivity.
+    + unfold id_div, eq_zero. destruct (Z.eqb_spec (coeff d) 0); [reflexivity|]. destruct (i =? 0); [reflexivity|].
+      unfold eq_one. rewrite ten_pow_ok by lia. cbn [bind]. destruct (coeff d =? 10 ^ nfd d); [reflexivity|].
+      rewrite (div_tail_pf' pf1 pf2) by (assumption || lia). reflexivity.
+    + unfold id_checked_div, eq_zero. destruct (Z.eqb_spec (coeff d) 0); [reflexivity|]. destruct (i =? 0); [reflexivity|].
+      unfold eq_one. rewrite ten_pow_ok by lia. cbn [bind]. destruct (coeff d =? 10 ^ nfd d); [reflexivity|].
+      rewrite (div_tail_pf' pf1 pf2) by (assumption || lia). reflexivity.
+    + unfold id_div_rounded, eq_zero. destruct (Z.eqb_spec (coeff d) 0); [reflexivity|]. destruct (i =? 0); [reflexivity|].
+      rewrite (cdr_pf pf1 pf2) by (assumption || lia). reflexivity.
+    + unfold id_quantize, id_div_rounded, eq_zero. destruct (Z.eqb_spec (coeff d) 0); [reflexivity|].
+      destruct (i =? 0) eqn:Ei0.
+      { cbn [bind]. apply f_equal. apply (dec_mul_pf pf1 pf2 m DZERO d); [reflexivity|cbn; lia|exact Hd]. }
+      rewrite (cdr_pf pf1 pf2 m i 0 (coeff d) (nfd d) 0) by (assumption || lia).
+      destruct (checked_div_rounded pf2 m i 0 (coeff d) (nfd d) 0) as [[c|]| | |] eqn:E; try reflexivity.
+      cbn [bind or_panic]. apply f_equal.
+      apply (dec_mul_pf pf1 pf2 m (mkdec c 0) d); [|cbn; lia|exact Hd]. cbn [coeff].
+      apply (cdr_range pf2 m i 0 (coeff d) (nfd d) 0 c); try assumption; lia.
+  - (* integer op integer *)
+    destruct op; cbn [run_ii]; try reflexivity.
+    + unfold ii_div_rounded. destruct (Z.eqb_spec j 0); [reflexivity|]. destruct (i =? 0); [reflexivity|].
+      rewrite (cdr_pf pf1 pf2) by (assumption || lia). reflexivity.
+    + unfold ii_quantize, ii_div_rounded. destruct (Z.eqb_spec j 0); [reflexivity|]. destruct (i =? 0); [reflexivity|].
+      rewrite (cdr_pf pf1 pf2) by (assumption || lia). reflexivity.
+Qed.
